@@ -126,49 +126,85 @@ def f_agg_or_window_over_constant(prog, idxs, ctx):
 
 
 def f_ungrouped_summarize_aggregates_dropped(prog, idxs, ctx):
-    """An ungrouped summarize whose aggregate columns are all overwritten / deselected afterwards within the
-    same SELECT level, or pruned because a later alias() turns the query into a subquery that does not need them."""
+    """An ungrouped summarize none of whose aggregate(-derived) columns survives: they are all overwritten /
+    deselected within the same SELECT level, or a later alias() turns the query into a subquery and no later
+    verb refers to them and they are not part of the final selection (the subquery selects only what is needed).
+
+    Columns are tracked by origin (step, name), so renames and references through earlier handles resolve."""
     steps = prog["steps"]
     grouped = {}
-    alive = {}  # handle -> set of aggregate column names of an ungrouped summarize still selected (None: n/a)
+    names = {}  # handle -> {current name: origin} for the aggregate(-derived) columns of an ungrouped summarize
+    pruned = {}  # handle -> True once an alias() made the columns prunable (they live on only if used)
     for i in idxs:
         st = steps[i]
         v = st["verb"]
         gin = grouped.get(st["in"], False)
         grouped[st["out"]] = True if v == "group_by" else (False if v in ("ungroup", "summarize") else gin)
-        cur = alive.get(st["in"])
+        cur = names.get(st["in"])
+
+        def refs(e, cur=cur, st=st):
+            out = set()
+            for n in walk(e):
+                if n.get("k") == "c" and cur and n["n"] in cur:
+                    out.add(cur[n["n"]])
+                elif n.get("k") == "col" and names.get(n["t"]) and n["n"] in names[n["t"]]:
+                    out.add(names[n["t"]][n["n"]])
+            return out
+
+        if v == "summarize" and not gin:
+            if cur and pruned.get(st["in"]) and not (refs(st["kw"]) & set(cur.values())):
+                return True  # the subquery below this summarize lost all its aggregates
+            if not any(n.get("k") == "fn" and n["op"] in AGG for _nm, e in st["kw"] for n in walk(e)):
+                return True  # no aggregate function at all: SELECT without aggregate
+            names[st["out"]] = {n: (i, n) for n, _ in st["kw"]}
+            pruned[st["out"]] = False
+            continue
         if v == "summarize":
-            if not gin:
-                if not any(n.get("k") == "fn" and n["op"] in AGG for _nm, e in st["kw"] for n in walk(e)):
-                    return True  # no aggregate function at all: SELECT without aggregate
-                alive[st["out"]] = {n for n, _ in st["kw"]}
-            else:
-                alive[st["out"]] = None
+            if cur and pruned.get(st["in"]) and not (refs(st["kw"]) & set(cur.values())):
+                return True
+            names[st["out"]] = None
             continue
         if cur is None:
-            alive[st["out"]] = None
+            names[st["out"]] = None
             continue
-        cur = set(cur)
+        cur = dict(cur)
+        alive = set(cur.values())
+        if pruned.get(st["in"]):
+            used = set()
+            for key in ("kw", "preds", "by", "cols", "on", "map"):
+                if key in st and v not in ("select", "drop", "rename"):
+                    used |= refs(st[key])
+            if used & alive:
+                names[st["out"]] = None  # a later verb needs an aggregate column: the subquery keeps it
+                continue
         if v == "alias":
-            return True  # the subquery only selects what later verbs need
+            names[st["out"]] = cur
+            pruned[st["out"]] = True
+            continue
         if v in ("join", "union", "collect"):
-            alive[st["out"]] = None
+            names[st["out"]] = None
             continue
         if v == "mutate":
-            cur -= {n for n, _ in st["kw"]}
+            for n, e in st["kw"]:
+                r = refs(e)
+                cur.pop(n, None)
+                if r & alive:
+                    cur[n] = (i, n)  # derived from an aggregate column: still an aggregate expression
         elif v == "select":
-            cur &= {e.get("n") for e in st["cols"]}
+            keep = {e.get("n") for e in st["cols"]}
+            cur = {n: o for n, o in cur.items() if n in keep}
         elif v == "drop":
-            cur -= {e.get("n") for e in st["cols"]}
+            gone = {e.get("n") for e in st["cols"]}
+            cur = {n: o for n, o in cur.items() if n not in gone}
         elif v == "rename":
             for k, n in st["map"]:
                 old = k if isinstance(k, str) else k.get("n")
                 if old in cur:
-                    cur.discard(old)
-                    cur.add(n)
+                    cur[n] = cur.pop(old)
         if not cur:
             return True
-        alive[st["out"]] = cur
+        names[st["out"]] = cur
+        pruned[st["out"]] = pruned.get(st["in"], False)
     return False
 
 
@@ -244,25 +280,58 @@ def f_clip_on_non_numeric(prog, idxs, ctx):
 
 
 def f_group_by_constant_column(prog, idxs, ctx):
-    """group_by over a column that a mutate defined as a constant expression, followed by summarize."""
+    """group_by over a constant column, followed by summarize.  Constant: defined by a mutate from literals and
+    other constant columns only (the static type carries `const` through column references, renames and joins)."""
     steps = prog["steps"]
-    const_names = set()
+    const = {}  # handle -> names of constant columns
+
+    def is_const(e, cur):
+        for n in walk(e):
+            k = n.get("k")
+            if k == "c" and n["n"] not in cur:
+                return False
+            if k == "col" and n["n"] not in const.get(n["t"], ()):
+                return False
+            if k == "fn" and (n["op"] in AGG or n["op"] in WIN or n["op"] in ("rand",)):
+                return False
+        return True
+
     for i in idxs:
         st = steps[i]
-        if st["verb"] == "mutate":
+        v = st["verb"]
+        cur = set(const.get(st["in"], ()))
+        if v == "mutate":
             for n, e in st["kw"]:
-                if not has_col(e):
-                    const_names.add(n)
+                if is_const(e, cur):
+                    cur.add(n)
                 else:
-                    const_names.discard(n)
-        if st["verb"] == "rename":
+                    cur.discard(n)
+        elif v == "rename":
             mp = {(k if isinstance(k, str) else k.get("n")): n for k, n in st["map"]}
-            const_names = {mp.get(n, n) for n in const_names} - {n for o, n in mp.items() if o not in const_names}
-        if st["verb"] == "group_by":
+            cur = {mp.get(n, n) for n in cur} - {n for o, n in mp.items() if o not in cur}
+        elif v == "summarize":
+            cur = {n for n, e in st["kw"] if is_const(e, cur)}
+        elif v == "join":
+            rc = const.get(st["right"], ())
+            cur |= set(rc)
+            # a right column may carry the join suffix `_<name of the right table>`
+            cur |= {"%s_%s" % (n, sfx) for n in rc for sfx in _table_names(prog)}
+        elif v == "group_by":
             for e in st["cols"]:
-                if e.get("n") in const_names:
+                if e.get("k") == "col" and e["n"] in const.get(e["t"], ()):
                     return True
+                if e.get("n") in cur:
+                    return True
+        const[st["out"]] = cur
     return False
+
+
+def _table_names(prog):
+    out = {t["name"] for t in prog["tables"]}
+    for st in prog["steps"]:
+        if st["verb"] == "alias" and st.get("name"):
+            out.add(st["name"])
+    return out
 
 
 def f_sqlite_date_to_datetime_compared(prog, idxs, ctx):
@@ -348,7 +417,7 @@ def match(entry, prop, finding, prog, ctx=None):
     excs = entry.get("exc")
     if excs is not None and finding.exc is not None and finding.exc not in excs:
         return False
-    if entry.get("detail_re") and not re.search(entry["detail_re"], finding.detail, re.S):
+    if entry.get("detail_re") and finding.kind.startswith(tuple(entry.get("detail_re_kinds", [""]))) and not re.search(entry["detail_re"], finding.detail, re.S):
         return False
     feat = FEATURES.get(entry["feature"])
     if feat is None:
